@@ -10,6 +10,7 @@ import (
 	"os"
 	"os/exec"
 	"path/filepath"
+	"regexp"
 	"strconv"
 	"strings"
 	"testing"
@@ -213,7 +214,10 @@ func runImport(t *testing.T, rc *RunCtx) {
 			if v < 0 {
 				v = 0
 			}
-			switch ch.Pick(12, 0) {
+			switch ch.Pick(14, 0) {
+			case 12, 13: // far beyond 2^53 (no longer exact as a floating-point number), below 2^63
+				rc.Stats.Inc("probe_numbers_beyond_2_53", 1)
+				return strconv.FormatInt(1<<62+int64(ch.Pick(4000, 0))+v, 10)
 			case 10: // decimal with leading zeros: still that decimal number
 				rc.Stats.Inc("probe_zero_padded_numbers", 1)
 				return strings.Repeat("0", 1+ch.Pick(3, 0)) + strconv.FormatInt(v, 10)
@@ -264,6 +268,11 @@ func runImport(t *testing.T, rc *RunCtx) {
 			f.Data = append(f.Data, e)
 		}
 		body, _ := json.Marshal(f)
+		if ch.Pick(6, 0) == 5 {
+			// Numbers written as bare JSON numbers instead of strings (some tools do): refused, or understood exactly.
+			body = reQuotedNumber.ReplaceAll(body, []byte(`"$1":$2`))
+			rc.Stats.Inc("probe_files_with_bare_numbers", 1)
+		}
 		path := filepath.Join(ScratchRoot(), fmt.Sprintf("ic-%d-%d.json", dirCounter, imp))
 		dirCounter++
 		if err := os.WriteFile(path, body, 0o600); err != nil {
@@ -393,6 +402,8 @@ func probeSeq(inst *Instance, probes []*Op) []bool {
 	}
 	return out
 }
+
+var reQuotedNumber = regexp.MustCompile(`"(slot|source_epoch|target_epoch)":"([0-9]+)"`)
 
 // runExport is the body of C11.
 func runExport(t *testing.T, rc *RunCtx) {
